@@ -1,7 +1,9 @@
 package main
 
 import (
+	"crypto/sha1"
 	_ "embed"
+	"encoding/hex"
 	"fmt"
 	"go/ast"
 	"go/parser"
@@ -191,6 +193,58 @@ func waStmtLists(fd *waFuncDecl, recv string) [][]string {
 	return out
 }
 
+// stmtHash identifies a canonical statement; short statements carry too little to be worth an instance.
+func stmtHash(canon string) (string, bool) {
+	if len(canon) < 120 {
+		return "", false
+	}
+	h := sha1.Sum([]byte(canon))
+	return hex.EncodeToString(h[:6]), true
+}
+
+// waTopStmts / goTopStmts: canonical top-level statements of a function body, keyed by hash. Names declared inside
+// a statement are positional; names from the enclosing function stay as written; the receiver is spelled alike.
+func waTopStmts(fd *waFuncDecl, recv string) map[string]string {
+	out := map[string]string{}
+	pre := map[string]string{}
+	stmts := fd.Decl.Body.List
+	if recv != "" {
+		pre["this"] = "$recv"
+		if len(stmts) > 0 {
+			if as, ok := stmts[0].(*waast.AssignStmt); ok && len(as.Lhs) == 1 && len(as.Rhs) == 1 {
+				l, lok := as.Lhs[0].(*waast.Ident)
+				r, rok := as.Rhs[0].(*waast.Ident)
+				if lok && rok && r.Name == "this" {
+					pre[l.Name] = "$recv"
+					stmts = stmts[1:]
+				}
+			}
+		}
+	}
+	for _, s := range stmts {
+		cs := canonAST(s, &canonOpts{Rename: canonLocals(pre, s)})
+		if h, ok := stmtHash(cs); ok {
+			out[h] = cs
+		}
+	}
+	return out
+}
+
+func goTopStmts(g goFunc) map[string]string {
+	out := map[string]string{}
+	pre := map[string]string{}
+	if g.Recv != "" {
+		pre[g.Recv] = "$recv"
+	}
+	for _, s := range g.Decl.Body.List {
+		cs := canonAST(s, &canonOpts{Rename: canonLocals(pre, s)})
+		if h, ok := stmtHash(cs); ok {
+			out[h] = cs
+		}
+	}
+	return out
+}
+
 func countSubseq(lists [][]string, pat []string) int {
 	n := 0
 	for _, l := range lists {
@@ -215,6 +269,8 @@ func c14PortBodies(c *Ctx, std *waStd, goroot string) {
 	mode := os.Getenv("VERIF_C14_DUMP")
 	want := map[string]bool{}
 	wantGoto := map[string]bool{}
+	wantStmt := map[string][]string{}
+	nStmt := 0
 	for _, l := range strings.Split(c14Bodies, "\n") {
 		l = strings.TrimSpace(l)
 		if l == "" || strings.HasPrefix(l, "#") {
@@ -222,6 +278,11 @@ func c14PortBodies(c *Ctx, std *waStd, goroot string) {
 		}
 		if strings.HasPrefix(l, "goto ") {
 			wantGoto[strings.TrimPrefix(l, "goto ")] = true
+		} else if strings.HasPrefix(l, "stmt ") {
+			if f := strings.Fields(l); len(f) == 3 {
+				wantStmt[f[1]] = append(wantStmt[f[1]], strings.TrimPrefix(f[2], "#"))
+				nStmt++
+			}
 		} else {
 			want[l] = true
 		}
@@ -291,6 +352,32 @@ func c14PortBodies(c *Ctx, std *waStd, goroot string) {
 				} else {
 					nDiff++
 				}
+				// statement-level instances for functions that differ from Go's as a whole (ported from another
+				// release, adapted to Wa): the top-level statements the two versions share
+				if !equal {
+					wst, gst := waTopStmts(fd, cands[0].Recv), goTopStmts(cands[0])
+					if mode == "2" {
+						var hs []string
+						for h := range wst {
+							if _, ok := gst[h]; ok {
+								hs = append(hs, h)
+							}
+						}
+						sort.Strings(hs)
+						for _, h := range hs {
+							fmt.Printf("stmt %s #%s\n", key, h)
+						}
+					} else {
+						for _, h := range wantStmt[key] {
+							id := "stmt " + key + " #" + h
+							seen[id] = true
+							_, inWa := wst[h]
+							_, inGo := gst[h]
+							c.Check(inWa && inGo, "port-statement", key+" #"+h, loc, "a statement shared with Go's "+pkg+"."+name,
+								fmt.Sprintf("the Wa port of %s.%s shared a top-level statement with Go's version (canonical hash %s) and no longer does (still in Wa: %v, still in Go: %v): that part of the port no longer is the code it was ported from", pkg, name, h, inWa, inGo))
+						}
+					}
+				}
 				// goto inlining
 				for _, g := range cands[:1] {
 					blocks := goLabelBlocks(g.Decl)
@@ -333,10 +420,18 @@ func c14PortBodies(c *Ctx, std *waStd, goroot string) {
 			missing = append(missing, "goto "+k)
 		}
 	}
+	for k, hs := range wantStmt {
+		for _, h := range hs {
+			if !seen["stmt "+k+" #"+h] && !seen[k] {
+				missing = append(missing, "stmt "+k+" #"+h)
+			}
+		}
+	}
 	sort.Strings(missing)
 	for _, k := range missing {
 		c.Undecided(rule, k, "", "the frozen instance no longer resolves on both sides (function renamed or removed): it is not being compared any more")
 	}
+	c.Count("frozen_statement_instances", nStmt)
 	c.Count("functions_with_a_go_namesake", nCmp)
 	c.Count("equal_functions_not_frozen", nEq)
 	c.Count("functions_that_differ_from_go_not_instances", nDiff)
